@@ -2,6 +2,7 @@ package rules
 
 import (
 	"go/ast"
+	"go/token"
 	"go/types"
 	"sort"
 
@@ -196,4 +197,138 @@ func (c *Ctx) lockFlow(fi *load.FuncInfo, g *cfgx.Graph, entry lockSet) *lockFlo
 		}
 	}
 	return res
+}
+
+// lockHygiene: for the given methods of one lock-owning type — every return releases what the function acquired (deferred
+// releases count), no acquisition of a lock that may already be held, Unlock/RUnlock only of what is held in that mode, and
+// no call, with a lock held, of a sibling that acquires the same lock (sync.RWMutex is not re-entrant).
+func (c *Ctx) lockHygiene(rule string, methods []*load.FuncInfo, blocked, after string) {
+	r := c.R
+	// which locks does a method acquire, itself or through the package's own functions it calls?
+	acquires := map[*types.Func]map[string]bool{}
+	byObj := map[*types.Func]*load.FuncInfo{}
+	for _, fi := range methods {
+		byObj[fi.Obj] = fi
+	}
+	var acq func(fi *load.FuncInfo, seen map[*load.FuncInfo]bool) map[string]bool
+	acq = func(fi *load.FuncInfo, seen map[*load.FuncInfo]bool) map[string]bool {
+		if a, ok := acquires[fi.Obj]; ok {
+			return a
+		}
+		out := map[string]bool{}
+		if seen[fi] || fi.Body() == nil {
+			return out
+		}
+		seen[fi] = true
+		for _, call := range astx.Calls(fi.Body(), false) {
+			if op := lockOpOf(fi.Info(), call); op != nil {
+				if op.op == "Lock" || op.op == "RLock" {
+					out[op.lock] = true
+				}
+				continue
+			}
+			if fn := astx.Callee(fi.Info(), call); fn != nil {
+				if cal := byObj[fn]; cal != nil {
+					for k := range acq(cal, seen) {
+						out[k] = true
+					}
+				}
+			}
+		}
+		acquires[fi.Obj] = out
+		return out
+	}
+	for _, fi := range methods {
+		acq(fi, map[*load.FuncInfo]bool{})
+	}
+	for _, fi := range methods {
+		info := fi.Info()
+		g := c.Graph(fi)
+		lf := c.lockFlow(fi, g, lockSet{})
+		// no call, with a lock held, to a method that acquires the same lock (sync.RWMutex is not re-entrant; even a
+		// nested RLock deadlocks as soon as a writer queues between the two)
+		for _, v := range g.Nodes() {
+			if v.Node == nil || len(lf.may[v.ID]) == 0 {
+				continue
+			}
+			for _, call := range astx.Calls(v.Node, false) {
+				fn := astx.Callee(info, call)
+				if fn == nil || byObj[fn] == nil {
+					continue
+				}
+				for lk := range lf.may[v.ID] {
+					r.Check(!acquires[fn][lk], rule, fi.Name(), "no call to "+fname(fn)+" (acquires "+lk+") while "+lk+" is held", c.P.Pos(call.Pos()), "lockset before: "+lf.may[v.ID].String(),
+						"a method that acquires "+lk+" is called while this goroutine already holds it: sync.RWMutex is not re-entrant — a nested Lock deadlocks at once, a nested RLock as soon as a writer queues between the two acquisitions, "+after)
+				}
+			}
+		}
+		hasOps := false
+		for _, call := range astx.Calls(fi.Body(), false) {
+			if lockOpOf(info, call) != nil {
+				hasOps = true
+			}
+		}
+		if !hasOps {
+			continue
+		}
+		// at every return (and at the fall-off exit): nothing held except deferred releases
+		check := func(v int, pos token.Pos, what string) {
+			var held []string
+			for k := range lf.may[v] {
+				if !lf.deferred[k] {
+					held = append(held, k)
+				}
+			}
+			r.Check(len(held) == 0, rule, fi.Name(), what+" releases every lock", c.P.Pos(pos), "lockset at exit: "+lf.may[v].String()+" (deferred releases excluded)",
+				"a path returns while still holding a lock: "+blocked)
+		}
+		for _, rv := range g.Returns() {
+			check(rv.ID, rv.Node.Pos(), "return")
+		}
+		// a deferred release needs the lock to be held where the defer statement runs
+		for _, v := range g.Nodes() {
+			ds, ok := v.Node.(*ast.DeferStmt)
+			if !ok {
+				continue
+			}
+			op := lockOpOf(info, ds.Call)
+			if op == nil {
+				continue
+			}
+			switch op.op {
+			case "Unlock":
+				r.Check(lf.must[v.ID][op.lock] == "W", rule, fi.Name(), "deferred Unlock of "+op.lock+" held in write mode", c.P.Pos(ds.Pos()), "lockset at the defer: "+lf.must[v.ID].String(),
+					"Unlock is deferred on a path where the lock is not held in write mode: the function exits with a runtime fatal error (unlock of unlocked RWMutex)")
+			case "RUnlock":
+				r.Check(lf.must[v.ID][op.lock] == "R", rule, fi.Name(), "deferred RUnlock of "+op.lock+" held in read mode", c.P.Pos(ds.Pos()), "lockset at the defer: "+lf.must[v.ID].String(),
+					"RUnlock is deferred on a path where the lock is not held in read mode: the function exits with a runtime fatal error")
+			}
+		}
+		// upgrades and double acquisition
+		for _, v := range g.Nodes() {
+			es, ok := v.Node.(*ast.ExprStmt)
+			if !ok {
+				continue
+			}
+			call, ok := es.X.(*ast.CallExpr)
+			if !ok {
+				continue
+			}
+			op := lockOpOf(info, call)
+			if op == nil {
+				continue
+			}
+			switch op.op {
+			case "Lock", "RLock":
+				r.Check(lf.may[v.ID][op.lock] == "", rule, fi.Name(), op.op+" of "+op.lock+" when not already held", c.P.Pos(call.Pos()), "lockset before: "+lf.may[v.ID].String(),
+					"the lock is acquired on a path where this goroutine may already hold it (read-to-write upgrade or re-entry): self-deadlock")
+			case "Unlock":
+				r.Check(lf.must[v.ID][op.lock] == "W", rule, fi.Name(), "Unlock of "+op.lock+" held in write mode", c.P.Pos(call.Pos()), "lockset before: "+lf.must[v.ID].String(),
+					"Unlock on a path where the lock is not held in write mode (runtime fatal error)")
+			case "RUnlock":
+				r.Check(lf.must[v.ID][op.lock] == "R", rule, fi.Name(), "RUnlock of "+op.lock+" held in read mode", c.P.Pos(call.Pos()), "lockset before: "+lf.must[v.ID].String(),
+					"RUnlock on a path where the lock is not held in read mode (runtime fatal error)")
+			}
+		}
+	}
 }
